@@ -28,7 +28,7 @@ from .. import hydrogen as hg
 
 PID = "C15"
 PROOF_FILES = ["theories/Props/C15.v", "theories/Checker/Poly.v", "theories/Proofs/HydroPlane.v",
-               "theories/Proofs/HydroHalfplanes.v", "theories/Proofs/HydroPair.v", "theories/Proofs/HydroForce.v"]
+               "theories/Proofs/HydroHalfplanes.v", "theories/Proofs/HydroPair.v", "theories/Proofs/HydroForce.v", "theories/Proofs/HydroParallel.v", "theories/Proofs/HydroOrder.v"]
 EPS = 2.220446049250313e-16
 
 CERT_HEADER = """From Coq Require Import ZArith QArith List.
@@ -447,6 +447,21 @@ def gen_units(rng, n):
         U.append(dict(kind="unit", fn="order", args=dict(pts=[[r * math.cos(a) + 0.3, r * math.sin(a) - 0.2] for a in rng.sample(angs, m)])))
     for m in range(3, 9):
         U.append(dict(kind="unit", fn="tess", args=dict(n=m)))
+    # --- intersect_tetrahedron_pairs: index wiring of the batch loop (distinct potentials per tetrahedron)
+    for _ in range(max(4, n // 20)):
+        n1, n2 = rng.randint(1, 4), rng.randint(1, 4)
+        base = hg.rand_tet(rng)
+        tp1 = [[[x + 0.25 * rng.gauss(0, 1) for x in p] for p in base] for _k in range(n1)]
+        tp2 = [[[x + 0.25 * rng.gauss(0, 1) for x in p] for p in base] for _k in range(n2)]
+        if any(abs(hg._vol6(t)) < 1e-3 for t in tp1 + tp2):
+            continue
+        pairs = [[i, j] for i in range(n1) for j in range(n2) if rng.random() < 0.8]
+        rng.shuffle(pairs)
+        U.append(dict(kind="unit", fn="pairs", args=dict(tp1=tp1, tp2=tp2, ep1=[hg.rand_pot(rng) for _k in range(n1)],
+                                                           ep2=[hg.rand_pot(rng) for _k in range(n2)], pairs=pairs,
+                                                           E1=hg.logu(rng, 1e-2, 1e2), E2=hg.logu(rng, 1e-2, 1e2))))
+    U.append(dict(kind="unit", fn="pairs", args=dict(tp1=[hg.rand_tet(rng)], tp2=[hg.rand_tet(rng, 1.0, (9.0, 9.0, 9.0))],
+                                                       ep1=[[1.0, 0.0, 0.0, 0.0]], ep2=[[0.0, 0.0, 0.0, 1.0]], pairs=[[0, 0]], E1=1.0, E2=1.0)))
     return U
 
 
@@ -523,6 +538,14 @@ def judge_unit(u, r, m):
         cx, cy = sum(p[0] for p in pts) / len(pts), sum(p[1] for p in pts) / len(pts)
         ang = [math.atan2(p[1] - cy, p[0] - cx) for p in out]
         return None if all(x <= y + 1e-12 for x, y in zip(ang, ang[1:])) else "order_points: angles not ascending"
+    if fn == "pairs":
+        # impl-vs-impl: the batch loop must report exactly the pairs the pair function accepts, with its results
+        want = [(p, d) for p, d in zip(a["pairs"], r["direct"]) if d["inter"]]
+        if r["inter"] != (len(want) > 0) or r["i1"] != [p[0] for p, _ in want] or r["i2"] != [p[1] for p, _ in want]:
+            return f"intersect_tetrahedron_pairs: reported ({r['i1']}, {r['i2']}, {r['inter']}) but the pair function accepts {[p for p, _ in want]}"
+        if not same_bits(r["planes"], [d["plane"] for _, d in want]) or not same_bits(r["polys"], [d["poly"] for _, d in want]):
+            return "intersect_tetrahedron_pairs: planes / polygons differ from the pair function's results (index wiring)"
+        return None
     if fn == "tess":
         nn = a["n"]
         want = [[0, k + 1, k + 2] for k in range(nn - 2)]
@@ -580,23 +603,48 @@ def merge_cov(covs):
 def gen_cases(rng, tier):
     quick = tier == "quick"
     pairs = []
-    per_cls = dict(random=90, random_near=60, aligned=110, lattice=90, shared_face=40, identical=30, same_field=30,
-                   touching=60, disjoint=40, tiny_scale=25, big_offset=25)
-    mult = 1 if quick else 8
+    per_cls = dict(random=70, random_near=40, aligned=90, lattice=70, shared_face=30, identical=24, same_field=24,
+                   touching=50, disjoint=30, tiny_scale=20, big_offset=20)
+    mult = 1 if quick else 10
     for cls, k in per_cls.items():
         for _ in range(k * mult):
             pairs.append(hg.tet_pair(rng, cls))
     bodies = []
-    modes = ["stacked"] * 8 + ["random"] * 10 + ["lattice"] * 6 + ["separated"] * 4
-    for mode in modes * (1 if quick else 6):
+    modes = ["stacked"] * 6 + ["random"] * 7 + ["lattice"] * 4 + ["separated"] * 3
+    for mode in modes * (1 if quick else 8):
         s1, s2 = hg.body_pair(rng, mode)
         c = dict(kind="bodies", cls="bodies_" + mode, b1=s1, b2=s2, use_aabb_trees=rng.random() < 0.5,
-                 all_pairs=True, max_contacts=24 if quick else 120, want_vertices=(mode == "separated"))
+                 all_pairs=True, max_contacts=16 if quick else 120, want_vertices=(mode == "separated"))
         bodies.append(c)
         if rng.random() < 0.5:
             bodies.append(dict(c, b1=s2, b2=s1, cls=c["cls"] + "_swapped"))
     units = gen_units(rng, 120 if quick else 1200)
     return pairs, bodies, units
+
+
+def route_polygon_failure(R, hits, what, case, t1, t2, plane, site):
+    """a reported polygon that is not the whole exact intersection / depends on the order.  Known
+    finding F26 (if recorded) covers exactly the inputs whose exact polygon has a vertex on >= 3 of
+    the 8 face planes (coincident / concurrent face lines); anything else is a violation."""
+    kf = [k for k in R.known if k.get("id") == "F26"]
+    if kf and hg.concurrent_lines(t1, t2, plane):
+        hits[0] += 1
+        R.known_finding("F26", kf[0].get("what", what)[:300])
+    else:
+        R.failure(what, case, site=site)
+
+
+def check_area(R, hits, t1, t2, plane, inter, area, case, tag):
+    """exact rational intersection polygon of the reported plane with both tetrahedra against the
+    reported area (0 if reported as not intersecting)"""
+    L = scale_of(t1, t2)
+    ex = hg.exact_area(hg.exact_polygon(t1, t2, plane), plane)
+    got = area if inter else 0.0
+    if abs(ex - got) > 1e-9 * L * L:
+        route_polygon_failure(R, hits, f"reported contact polygon is not the intersection of the plane with both tetrahedra ({tag}): "
+                              f"area {got!r}, exact area {ex!r}", case, t1, t2, plane, "intersect_tetrahedron_pair")
+        return False
+    return True
 
 
 # ---------------------------------------------------------------- main
@@ -650,6 +698,7 @@ def run(tier, seed, replay=None):
             cov_cases.append(c)
     small = [c for c in bodies if c["b1"]["shape"] in ("cube", "box") and c["b2"]["shape"] in ("cube", "box")]
     cov_cases += [dict(c, all_pairs=False) for c in small[:3]] + [dict(c, all_pairs=False, use_aabb_trees=not c["use_aabb_trees"]) for c in small[:1]]
+    cov_cases += [dict(c, all_pairs=False) for c in bodies if c["cls"].startswith("bodies_separated") and c["b1"]["shape"] in ("cube", "box", "sphere")][:1]
     cov_cases += [u for u in units if u["fn"] in ("tess", "force", "same", "order", "pairs")][:30]
     with ThreadPoolExecutor(4) as ex:
         fp = ex.submit(run_workers, pairs, "pair", "c15", 40)
@@ -670,7 +719,7 @@ def run(tier, seed, replay=None):
         if r is None or "exc" in r:
             continue
         cs = r.get("contacts", [])
-        take = cs if len(cs) <= 6 else R.rng.sample(cs, 6)
+        take = cs if len(cs) <= 4 else R.rng.sample(cs, 4)
         for ct in take:
             rerun.append(dict(kind="pair", cls="rerun_" + c["cls"], t1=ct["t1"], e1=ct["e1"], t2=ct["t2"], e2=ct["e2"],
                               E1=r["E"][0], E2=r["E"][1], expect=dict(plane=ct["plane"], poly=ct["poly"], force=ct["force"],
@@ -832,31 +881,13 @@ def run(tier, seed, replay=None):
                 R.failure(f"bodies with disjoint convex hulls (sep_cert): intersection={r['intersection']} contacts={r['n_contacts']} "
                           f"w12={r['w12']} w21={r['w21']}", c, site="find_contact_surface")
     # ---------------- order independence, completeness, bodies bookkeeping (Python oracles)
-    has_f18 = any(k.get("id") == "F26" for k in R.known)
     f18_hits = [0]
 
     def polygon_failure(what, case, t1, t2, plane, site):
-        """a reported polygon that is not the whole exact intersection / depends on the order.  Known
-        finding F26 (if recorded) covers exactly the inputs whose exact polygon has a vertex on >= 3 of
-        the 8 face planes (coincident / concurrent face lines); anything else is a violation."""
-        if has_f18 and hg.concurrent_lines(t1, t2, plane):
-            f18_hits[0] += 1
-            kf = [k for k in R.known if k.get("id") == "F26"][0]
-            R.known_finding("F26", kf.get("what", what)[:300])
-        else:
-            R.failure(what, case, site=site)
+        route_polygon_failure(R, f18_hits, what, case, t1, t2, plane, site)
 
     def area_check(t1, t2, plane, inter, area, case, tag):
-        """exact rational intersection polygon of the reported plane with both tetrahedra against the
-        reported area (0 if reported as not intersecting)"""
-        L = scale_of(t1, t2)
-        ex = hg.exact_area(hg.exact_polygon(t1, t2, plane), plane)
-        got = area if inter else 0.0
-        if abs(ex - got) > 1e-9 * L * L:
-            polygon_failure(f"reported contact polygon is not the intersection of the plane with both tetrahedra ({tag}): "
-                            f"area {got!r}, exact area {ex!r}", case, t1, t2, plane, "intersect_tetrahedron_pair")
-            return False
-        return True
+        return check_area(R, f18_hits, t1, t2, plane, inter, area, case, tag)
 
     order_skipped = 0
     area_checked = 0
@@ -885,6 +916,11 @@ def run(tier, seed, replay=None):
         if not a["inter"]:
             continue
         if a.get("same") or b.get("same"):
+            continue
+        if max(a["area"], b["area"]) <= 1e-9 * L * L:
+            # both orders report a degenerate (zero-area, zero-force) contact: a segment or a point whose
+            # duplicate end points are filtered differently; not a polygon difference
+            order_skipped += 1
             continue
         if set_dist(a["poly"], b["poly"]) > 1e-9 * L:
             polygon_failure(f"contact polygon depends on the order of the tetrahedra: Hausdorff distance of the vertex sets "
@@ -921,7 +957,7 @@ def run(tier, seed, replay=None):
             if not area_check(ct["t1"], ct["t2"], ct["plane"], True, ct["area"], dict(c, contact=ct), f"body contact {ct['i']},{ct['j']}"):
                 continue
             if ct["sw_inter"]:
-                if set_dist(ct["poly"], ct["sw_poly"]) > 1e-9 * L:
+                if ct["area"] > 1e-9 * L * L and set_dist(ct["poly"], ct["sw_poly"]) > 1e-9 * L:
                     polygon_failure(f"contact polygon depends on the order of the tetrahedra (body contact {ct['i']},{ct['j']}): "
                                     f"{set_dist(ct['poly'], ct['sw_poly']):.3g}", dict(c, contact=ct), ct["t1"], ct["t2"], ct["plane"],
                                     "intersect_tetrahedron_pair")
@@ -1186,8 +1222,16 @@ def targeted_search(R, tier):
                 idx.append((i, o))
         a, b = r["o12"], r["o21"]
         L = scale_of(c["t1"], c["t2"])
-        if a["inter"] and b["inter"] and not a.get("same") and set_dist(a["poly"], b["poly"]) > 1e-9 * L:
-            R.failure("contact polygon depends on the order of the tetrahedra (search)", dict(c, o12=a, o21=b), site="intersect_tetrahedron_pair")
+        hits = [0]
+        ok = True
+        for o, ro, ta, tb in (("o12", a, c["t1"], c["t2"]), ("o21", b, c["t2"], c["t1"])):
+            if "expect_disjoint" in c or ro.get("same") or not (ro["inter"] or ro.get("pre")) or not finite(ro["plane"]):
+                continue
+            ok = check_area(R, hits, ta, tb, ro["plane"], ro["inter"], ro.get("area", 0.0), dict(c, result=ro, order=o), o + ", search") and ok
+        if ok and a["inter"] and b["inter"] and not a.get("same") and max(a["area"], b["area"]) > 1e-9 * L * L \
+                and set_dist(a["poly"], b["poly"]) > 1e-9 * L:
+            route_polygon_failure(R, hits, "contact polygon depends on the order of the tetrahedra (search)", dict(c, o12=a, o21=b),
+                                  c["t1"], c["t2"], a["plane"], "intersect_tetrahedron_pair")
     try:
         vs = cm.coq_eval_lines(PID, CERT_HEADER, exprs, tag="search", per_file=max(8, len(exprs) // (3 * cm.NCPU) + 1), timeout=1500)
         for (i, o), v in zip(idx, vs):
